@@ -12,20 +12,20 @@ import sys
 
 INF = 255
 NSLOT = 4
-F1, G1, F2, V1, R1, CR1 = range(6)
+F1, G1, F2, V1, R1, CR1, SV1 = range(7)
 MK = dict(ANY=0, EQ=1, LT=2, VAL=3, NE=4, GE=5)
 TF = dict(RT=0, DEFAULT=1, N=2, LH=3, ATLEAST=4, ATMOST=5, ALLOW=6, FORBID=7)
-ACT = dict(RET=0, THROW_INT=1, THROW_STD=2, NONE=3, RETREF=4, RETCAP=5)
+ACT = dict(RET=0, THROW_INT=1, THROW_STD=2, NONE=3, RETREF=4, RETCAP=5, RETSTR=6)
 MOCK = dict(M=0, MV=1, W=2)
 (OP_CREATE, OP_RELEASE, OP_CALL, OP_DESTROY_MOCK, OP_MOVE_MOCK, OP_DESTROY_SEQ, OP_MOVE_SEQ, OP_NEW_WATCHED, OP_DELETE_WATCHED,
  OP_COPY_WATCHED, OP_MOVECONS_WATCHED, OP_ASSIGN_WATCHED, OP_MOVEASSIGN_WATCHED, OP_MONITOR, OP_PUSH_TRACER, OP_POP_TRACER,
- OP_SET_REPORTER, OP_ASSIGN_SEQ, OP_ARM_REPORTER) = range(19)
+ OP_SET_REPORTER, OP_ASSIGN_SEQ, OP_ARM_OK, OP_ARM_REPORTER) = range(20)
 
 F_KIND, F_HANDLER, F_REPCOUNT, F_REPCULPRIT, F_REPDETAIL, F_OKREP, F_TRACE, F_CLOG, F_QEXP, F_QSEQ, F_MISC = [1 << i for i in range(11)]
 F_REPORTS = F_REPCOUNT | F_REPCULPRIT | F_REPDETAIL
 F_ALL = (1 << 11) - 1
 
-FN_NAME = {F1: 'f', F2: 'f', G1: 'g', V1: 'v', R1: 'r', CR1: 'cr'}
+FN_NAME = {F1: 'f', F2: 'f', G1: 'g', V1: 'v', R1: 'r', CR1: 'cr', SV1: 'sv'}
 
 
 class Gen:
@@ -36,7 +36,7 @@ class Gen:
 
     def shape(self, mock='M', fn=F1, mk1='EQ', mk2='ANY', nwith=0, nse=0, seqar=0, tform='RT', tl=0, th=0, act=None, clauses=None):
         if act is None:
-            act = 'NONE' if (fn == V1 or tform == 'FORBID' or (tform in ('N', 'ATMOST') and tl == 0) or mock == 'W') else ('RETREF' if fn == R1 else ('RETCAP' if fn == CR1 else 'RET'))
+            act = 'NONE' if (fn == V1 or tform == 'FORBID' or (tform in ('N', 'ATMOST') and tl == 0) or mock == 'W') else ('RETREF' if fn == R1 else ('RETCAP' if fn == CR1 else ('RETSTR' if fn == SV1 else 'RET')))
         if clauses is None:
             clauses = 'W' * nwith + ('Q' if seqar else '') + ('T' if tform not in ('DEFAULT', 'ALLOW', 'FORBID') else '') + 'S' * nse + ('A' if act != 'NONE' else '')
         key = (MOCK[mock], fn, MK[mk1], MK[mk2], nwith, nse, seqar, TF[tform], tl, th, ACT[act], clauses)
@@ -57,8 +57,8 @@ class Gen:
     def monitor(self, slot, shape, w=0, s1=0, s2=1):
         return self.op(OP_MONITOR, slot=slot, shape=shape, obj=w, s1=s1, s2=s2)
 
-    def call(self, obj, fn, a1, a2=0):
-        return self.op(OP_CALL, obj=obj, fn=fn, a1=a1, a2=a2)
+    def call(self, obj, fn, a1, a2=0, in_catch=False):
+        return self.op(OP_CALL, obj=obj, fn=fn, a1=a1, a2=a2, k1=1 if in_catch else 0)
 
     def release(self, slot):
         return self.op(OP_RELEASE, slot=slot)
@@ -110,7 +110,7 @@ class Gen:
             elif c == 'A':
                 chain += {ACT['RET']: '.RETURN(cur()->hr(%d))' % K, ACT['RETREF']: '.LR_RETURN(cur()->hrr(%d))' % K,
                           ACT['THROW_INT']: '.THROW(cur()->ht(%d))' % K, ACT['THROW_STD']: '.THROW(cur()->hte(%d))' % K,
-                          ACT['RETCAP']: '.RETURN(v_s%d)' % K}[act]
+                          ACT['RETCAP']: '.RETURN(v_s%d)' % K, ACT['RETSTR']: '.RETURN(cur()->hstr(%d))' % K}[act]
         getter = 'pw->M_(op.obj)' if mock == MOCK['M'] else 'pw->MV_(op.obj)'
         pre = 'int v_s%d = %d; ' % (K, 700 + K) if act == ACT['RETCAP'] else ''
         return '%sauto& %s = %s; return %s;' % (pre, var, getter, chain), text
@@ -536,7 +536,7 @@ def c13_alphabet(g, slots, nw):
 def plans_C13(g, tier):
     if tier == 'quick':
         return [dict(name='watch2', mask=M_C13, du=3, dm=7, alphabet=c13_alphabet(g, (0, 1), 2)),
-                dict(name='watch3mon3', mask=M_C13, du=3, dm=5, alphabet=c13_alphabet(g, (0, 1, 2), 3))]
+                dict(name='watch3mon3', mask=M_C13, du=3, dm=6, alphabet=c13_alphabet(g, (0, 1, 2), 3))]
     return [dict(name='watch3', mask=M_C13, du=4, dm=9, alphabet=c13_alphabet(g, (0, 1), 3)),
             dict(name='watch3mon3', mask=M_C13, du=3, dm=8, alphabet=c13_alphabet(g, (0, 1, 2), 3))]
 
@@ -587,9 +587,11 @@ def plans_C16(g, tier):
         A.append(g.create(slot, g.shape(fn=F1, mk1='EQ', tform='FORBID'), obj=0, k1=2))
         A.append(g.create(slot, g.shape(fn=F1, mk1='ANY', tform='RT', seqar=1), obj=0, lo=1, hi=1, s1=0))
         A.append(g.create(slot, g.shape(fn=G1, mk1='ANY', tform='ALLOW'), obj=0))
+        A.append(g.create(slot, g.shape(fn=F1, mk1='EQ', tform='RT', nse=1), obj=0, k1=1, lo=1, hi=2, semode=(1, 0, 0)))   # side effect throws: the call is still accepted
+        A.append(g.create(slot, g.shape(fn=F1, mk1='EQ', tform='ALLOW', nse=1), obj=0, k1=0, semode=(2, 0, 0)))             # side effect calls g(): OK reports in acceptance order
         A.append(g.release(slot))
-    A += [g.call(0, F1, a) for a in (0, 1, 2)] + [g.call(0, G1, 1)]
-    A += [g.op(OP_SET_REPORTER, k1=1, k2=1), g.op(OP_SET_REPORTER, k1=2, k2=0), g.op(OP_SET_REPORTER, k1=0, k2=1)]
+    A += [g.call(0, F1, a) for a in (0, 1, 2)] + [g.call(0, G1, 1), g.call(0, F1, 2, in_catch=True), g.call(0, F1, 1, in_catch=True)]
+    A += [g.op(OP_SET_REPORTER, k1=1, k2=1), g.op(OP_SET_REPORTER, k1=2, k2=0), g.op(OP_SET_REPORTER, k1=0, k2=1), g.op(OP_ARM_OK, k1=2)]
     if tier == 'quick':
         return [dict(name='ok3', mask=M_C16, du=2, dm=6, alphabet=A)]
     return [dict(name='ok3', mask=M_C16, du=3, dm=8, alphabet=A)]
@@ -611,8 +613,12 @@ def plans_C17(g, tier):
            [g.create(0, g.shape(fn=F1, mk1='ANY', tform='ALLOW', nse=1), obj=0, semode=(3, 0, 0)),        # recursion into the same function
             g.create(1, g.shape(fn=F1, mk1='EQ', tform='RT', seqar=1), obj=0, k1=0, lo=1, hi=1, s1=0),
             g.create(2, g.shape(fn=G1, mk1='ANY', tform='RT', seqar=1, act='THROW_STD'), obj=0, lo=1, hi=1, s1=0)]]
+    pre.append([g.create(0, g.shape(fn=SV1, mk1='ANY', tform='ALLOW'), obj=0),                                                  # std::string returned by value
+                g.create(1, g.shape(fn=V1, mk1='EQ', tform='ALLOW', nse=1), obj=0, k1=1, semode=(1, 0, 0)),                       # void function whose side effect throws
+                g.create(2, g.shape(fn=F1, mk1='EQ', tform='ALLOW', nse=2), obj=0, k1=1, semode=(0, 1, 0)),                       # second side effect throws
+                g.create(3, g.shape(fn=F1, mk1='EQ', tform='ALLOW', nse=1), obj=0, k1=2, semode=(4, 0, 0))])                      # side effect constructs a tracer that outlives the call
     A = [g.op(OP_PUSH_TRACER, k1=0), g.op(OP_PUSH_TRACER, k1=1), g.op(OP_POP_TRACER)]
-    A += [g.call(0, F1, a) for a in (0, 1, 2)] + [g.call(0, G1, 1), g.call(0, V1, 1), g.call(0, F2, 1, 2), g.call(0, R1, 1), g.release(3)]
+    A += [g.call(0, F1, a) for a in (0, 1, 2)] + [g.call(0, G1, 1), g.call(0, V1, 1), g.call(0, F2, 1, 2), g.call(0, R1, 1), g.call(0, SV1, 1), g.release(3)]
     return [dict(name='trace', mask=M_C17, du=3 if tier == 'quick' else 4, dm=7 if tier == 'quick' else 10, alphabet=A, prefixes=pre)]
 
 
